@@ -37,7 +37,7 @@ from lib import Err
 ID = "C17"
 COQ_IMPORTS = "From DV Require Import Model.CacheM."
 COQ_RUN = "CacheM.run"
-CASE_TIMEOUT = 30.0
+CASE_TIMEOUT = 10.0
 TRUSTED = [
     "model: coq/Model/CacheM.v (Cache value-level; LRUCache store-level with explicit prev/next ids; list-level spec alru)",
     "scripted clock bound to dns.resolver.time; scheduler shim bound to dns.resolver.threading (lock enter/exit and clock reads are the scheduling points)",
@@ -603,8 +603,68 @@ def cases(ctx):
 
 
 # ------------------------------------------------------------------ oracle (the property text on the implementation)
+_shrunk = {}
+
+
+def with_ops(case, ops):
+    c = list(case)
+    c[3 if case[0] == 1 else 4] = ops
+    return c
+
+
+def shrink(case, what):
+    """greedy minimisation of a failing sequential history (same failure text must persist)"""
+    def fails(c):
+        c = lib.normalize(c)
+        fs = check_history(c, lib.normalize(impl(c)))
+        return next((f for f in fs if f["what"] == what), None)
+
+    ops = list(case[3] if case[0] == 1 else case[4])
+    f = fails(case)
+    if f is None:
+        return case, None
+    if f.get("step") is not None and f["step"] >= 0:
+        ops = ops[: f["step"] + 1]
+    budget = 400
+    changed = True
+    while changed and budget > 0:
+        changed = False
+        for i in range(len(ops) - 1, -1, -1):
+            budget -= 1
+            cand = ops[:i] + ops[i + 1:]
+            if fails(with_ops(case, cand)) is not None:
+                ops = cand
+                changed = True
+        for i, op in enumerate(ops):
+            if op[0] != 11 and op[-1]:
+                budget -= 1
+                cand = ops[:i] + [op[:-1] + [[]]] + ops[i + 1:]
+                if fails(with_ops(case, cand)) is not None:
+                    ops = cand
+                    changed = True
+    small = with_ops(case, ops)
+    return small, fails(small)
+
+
 def oracle(ctx, kind, case, out):
-    return check_history(case, out)
+    fs = check_history(case, out)
+    if fs and not is_concurrent(case):
+        out_fs = []
+        for f in fs:
+            if f["what"] in _shrunk or len(_shrunk) >= 6:
+                out_fs.append(f)
+                continue
+            small, sf = shrink(case, f["what"])
+            _shrunk[f["what"]] = small
+            if sf is not None:
+                sf = dict(sf)
+                sf["case"] = small
+                sf["shrunk_from_ops"] = len(case[3] if case[0] == 1 else case[4])
+                out_fs.insert(0, sf)
+            else:
+                out_fs.append(f)
+        return out_fs
+    return fs
 
 
 def check_history(case, out):
